@@ -54,7 +54,9 @@ traces are compared as before).  var = rv + 8 * cv:
   op (9 s how)                    NOT a write (oracle only): 0 maybe_update(|_| false), 1 write() + untrack(), 2 try_maybe_update -> (false, _),
                                   3 update_untracked(|_| {}), 4 write_untracked() guard dropped
   op (10 e k)                     the effect declared by template k is created now, under the owner of effect e (oracle only)
-  case (prog ops flags)           flags: 1 every poll hands the task a new waker (older ones are dead), 2 untrack_with_diagnostics
+  case (prog ops flags)           flags: 1 every poll hands the task a new waker (older ones are dead), 2 untrack_with_diagnostics,
+                                  4 before every (3 k) / (4) each task that is NOT ready is polled once (spurious wake-up: nothing may happen)
+  template (5 decl)               decl may carry the variant field of its kind: (1 cmp flavour expr var) / (3 kind body handler -1 var)
 Events printed by harness and model:
   (0 n v) top-level read | (1 i) body starts | (2 who j v t) read inside body `who` (-1: none)
   | (3 i v) body ends | (5 i)/(6 i v) watch handler | (7) idle | (8 e) task polled | (9) no idle
@@ -259,7 +261,10 @@ def valid_prog(prog):
             return False
         if nd[0] == TPL:
             d = nd[1]
-            if not (isinstance(d, list) and d and ((d[0] == MEMO and len(d) == 4) or (d[0] == EFF and len(d) == 4 and d[1] in (0, 1, 2, 3, 4)))):
+            if not (isinstance(d, list) and d and ((d[0] == MEMO and len(d) in (4, 5))
+                                                    or (d[0] == EFF and (len(d) == 4 or (len(d) == 6 and d[4] == -1)) and d[1] in (0, 1, 2, 3, 4)))):
+                return False
+            if not valid_var(d):
                 return False
             if d[0] == EFF and d[1] not in (2, 3) and d[3] != [0, 0]:
                 return False
@@ -525,7 +530,7 @@ def valid_case(item):
     c = item["case"]
     if not (isinstance(c, list) and len(c) in (2, 3) and isinstance(c[0], list) and isinstance(c[1], list)):
         return False
-    if len(c) == 3 and c[2] not in (0, 1, 2, 3):
+    if len(c) == 3 and c[2] not in (0, 1, 2, 3, 4, 5, 6, 7):
         return False
     if item.get("compare") and any(o and o[0] in (9, 10) for o in c[1] if isinstance(o, list)):
         return False          # the model has no such operation
@@ -896,7 +901,14 @@ def add_variants(rng, prog, p=0.5):
     """API variants on the nodes of a generated program (see the module docstring): other entry points of the same
     mechanism; the model ignores the fields"""
     for nd in prog:
-        if nd[0] == TPL or rng.random() >= p:
+        if rng.random() >= p:
+            continue
+        if nd[0] == TPL:
+            d = nd[1]
+            if d[0] == MEMO and len(d) == 4:
+                d.append(rng.randint(0, 4) + 8 * rng.choice([0, 1, 1, 2]))
+            elif d[0] == EFF and len(d) == 4 and d[1] != 4:
+                d += [-1, rng.choice({0: (1,), 1: (1, 2), 2: (1,), 3: (1,)}[d[1]])]
             continue
         if nd[0] == SIG and nd[1] in (0, 1, 2, 4) and len(nd) == 3:
             nd.append(rng.randint(0, 4) + 8 * rng.randint(0, 9))
@@ -917,7 +929,7 @@ def add_variants(rng, prog, p=0.5):
 def with_flags(rng, prog, ops, p=0.3):
     """the case, in a part of the cases with flags (fresh waker per poll, untrack_with_diagnostics)"""
     if rng.random() < p:
-        return [prog, ops, rng.choice([1, 1, 2, 3])]
+        return [prog, ops, rng.choice([1, 1, 2, 3, 4, 4, 5, 7])]
     return [prog, ops]
 
 
@@ -2031,11 +2043,11 @@ def describe(item):
             if nd[0] == TPL:
                 d = nd[1]
                 if d[0] == MEMO:
-                    out.append("n%d = template %s%s(%s)" % (i, ["ArcMemo", "Memo"][d[2] % 2],
-                                                            ["", "[always changed]", "[changed iff parity differs]"][d[1] % 3], show_expr(d[3])))
+                    out.append("n%d = template %s%s(%s)%s" % (i, ["ArcMemo", "Memo"][d[2] % 2],
+                                                              ["", "[always changed]", "[changed iff parity differs]"][d[1] % 3], show_expr(d[3]), show_var(d)))
                 else:
                     h = "" if d[1] not in (2, 3) else " handler %s" % show_expr(d[3])
-                    out.append("n%d = template %s(%s)%s" % (i, ek[d[1] % 6], show_expr(d[2]), h))
+                    out.append("n%d = template %s(%s)%s%s" % (i, ek[d[1] % 6], show_expr(d[2]), h, show_var(d)))
             elif is_cell(nd):
                 out.append("n%d = <selector cell>" % i)
             elif is_key(nd):
@@ -2061,7 +2073,7 @@ def describe(item):
         os_ = []
         for o in ops:
             os_.append(on[o[0]] + ("(" + ",".join(str(x) for x in o[1:]) + ")" if len(o) > 1 else ""))
-        fl = "" if not flags else "  ||  flags: " + ", ".join(x for b, x in ((1, "new waker on every poll"), (2, "untrack_with_diagnostics")) if flags & b)
+        fl = "" if not flags else "  ||  flags: " + ", ".join(x for b, x in ((1, "new waker on every poll"), (2, "untrack_with_diagnostics"), (4, "spurious polls of tasks that are not ready")) if flags & b)
         return "; ".join(out) + "  ||  " + " ".join(os_) + fl
     except Exception:
         return None
